@@ -222,6 +222,8 @@ struct Stats {
     snapshot_roundtrips: u64,
     szx_time_jumps: u64,
     fast_forward_preludes: u64,
+    long_rests: u64,
+    rest_frames: u64,
     drains: u64,
     undrained_runs: u64,
     ay_cases: u64,
@@ -266,7 +268,17 @@ fn check_bounds(ctx: &Ctx, cfg: &Cfg, ay_sounding: bool, bound: f64, s: &[(f32, 
 fn tracking_case(ctx: &Ctx, rng: &mut Rng, id: u64, st: &mut Stats) {
     let ay_loud = rng.chance(1, 4);
     let cfg = gen_cfg(rng, if ay_loud { Some(true) } else { None });
-    let prog = gen_program(rng, ay_loud);
+    // a sixth of the cases: the machine rests for 5..9 emulated seconds before the program runs, and
+    // the program's first port write comes somewhere inside a frame (a leading delay)
+    let long_rest = rng.chance(1, 6);
+    let prog = if long_rest {
+        let mut p = vec![];
+        emit_delay(&mut p, 3000 + rng.below(60000));
+        p.extend(gen_program(rng, ay_loud));
+        p
+    } else {
+        gen_program(rng, ay_loud)
+    };
     let nframes = 3 + rng.below(6);
     let wit = || jobj! {"monitor"=>"tracking","case"=>id,"cfg"=>cfg_json(&cfg),"program_at_a000_hex"=>hex(&prog),"frames"=>nframes,"ay_written"=>ay_loud};
     let mut m = Machine::new(cfg);
@@ -326,6 +338,19 @@ fn tracking_case(ctx: &Ctx, rng: &mut Rng, id: u64, st: &mut Stats) {
         m.run_frames(1);
         m.drain_audio();
         st.fast_forward_preludes += 1;
+    }
+    // ---- history: the machine has been silent for a long while (5..9 emulated seconds of a constant
+    // port level, drained every frame) before the program makes its first edge
+    if long_rest {
+        m.poke_bytes(0x9F00, &[0x18, 0xFE]);
+        park(&mut m, 0x9F00);
+        let rest = 255 + rng.below(200);
+        for _ in 0..rest {
+            m.run_frames(1);
+            m.drain_audio();
+        }
+        st.long_rests += 1;
+        st.rest_frames += rest;
     }
     // ---- run the program
     m.poke_bytes(PROG, &prog);
@@ -629,6 +654,8 @@ pub fn run(ctx: &Ctx) -> Evidence {
         tot.snapshot_roundtrips += r.snapshot_roundtrips;
         tot.szx_time_jumps += r.szx_time_jumps;
         tot.fast_forward_preludes += r.fast_forward_preludes;
+        tot.long_rests += r.long_rests;
+        tot.rest_frames += r.rest_frames;
         tot.drains += r.drains;
         tot.undrained_runs += r.undrained_runs;
         tot.ay_cases += r.ay_cases;
@@ -652,6 +679,8 @@ pub fn run(ctx: &Ctx) -> Evidence {
     ev.add_num("own_snapshot_saved_and_reloaded_before_a_drain", tot.snapshot_roundtrips);
     ev.add_num("szx_loads_moving_the_frame_position_forward", tot.szx_time_jumps);
     ev.add_num("cases_after_a_fast_forward_pass_ended_by_a_breakpoint", tot.fast_forward_preludes);
+    ev.add_num("cases_after_a_rest_of_more_than_5_s_of_constant_output", tot.long_rests);
+    ev.add_num("frames_of_constant_output_before_those_cases", tot.rest_frames);
     ev.add_num("full_drains", tot.drains);
     ev.add_num("full_drains_after_undrained_frames", tot.undrained_runs);
     ev.add_num("ay_enabled_cases", tot.ay_cases);
